@@ -45,6 +45,10 @@ type Decision struct {
 	What       []string
 }
 
+// Suspend is the special choice "hold the default thread (Enabled[0]) back until no other thread can
+// run, and continue with Enabled[1]".
+const Suspend = -1
+
 // Chooser picks the index of the next thread among n>1 enabled ones.
 type Chooser interface {
 	Choose(d *Decision, step int) int
@@ -63,6 +67,9 @@ type ReplayChooser struct {
 func (r *ReplayChooser) Choose(d *Decision, step int) int {
 	if step < len(r.Prefix) {
 		c := r.Prefix[step]
+		if c == Suspend {
+			return c
+		}
 		if c < 0 || c >= len(d.Enabled) {
 			if r.Err == nil {
 				r.Err = fmt.Errorf("replay divergence at decision %d: choice %d of %d enabled", step, c, len(d.Enabled))
@@ -97,6 +104,7 @@ type Sched struct {
 	Log       []string // observation log (harness use)
 	aborted   bool
 	setup     bool // set-up phase: default choices, nothing recorded
+	suspended map[*Thread]bool
 }
 
 // BeginSetup / EndSetup bracket a set-up phase of the harness (logins etc.) during which the
@@ -158,11 +166,22 @@ func Run(chooser Chooser, maxSteps int, main func()) *Sched {
 				d.What = append(d.What, t.Name+":"+t.What)
 			}
 			idx = s.chooser.Choose(&d, len(s.Decisions))
-			if idx < 0 || idx >= len(en) {
-				idx = 0
+			if idx == Suspend {
+				// hold the default thread back until nothing else can run; continue with the next one
+				if s.suspended == nil {
+					s.suspended = map[*Thread]bool{}
+				}
+				s.suspended[en[0]] = true
+				d.Chosen = Suspend
+				s.Decisions = append(s.Decisions, d)
+				idx = 1
+			} else {
+				if idx < 0 || idx >= len(en) {
+					idx = 0
+				}
+				d.Chosen = idx
+				s.Decisions = append(s.Decisions, d)
 			}
-			d.Chosen = idx
-			s.Decisions = append(s.Decisions, d)
 		}
 		t := en[idx]
 		s.Steps++
@@ -182,6 +201,16 @@ func Run(chooser Chooser, maxSteps int, main func()) *Sched {
 }
 
 func (s *Sched) enabled() []*Thread {
+	en := s.enabledFiltered(true)
+	if len(en) == 0 && len(s.suspended) > 0 {
+		// only suspended threads can run: release them all
+		s.suspended = nil
+		en = s.enabledFiltered(true)
+	}
+	return en
+}
+
+func (s *Sched) enabledFiltered(skipSuspended bool) []*Thread {
 	var en []*Thread
 	var first *Thread
 	for _, t := range s.Threads {
@@ -189,6 +218,9 @@ func (s *Sched) enabled() []*Thread {
 			continue
 		}
 		if t.cond != nil && !t.cond() {
+			continue
+		}
+		if skipSuspended && s.suspended[t] {
 			continue
 		}
 		if t == s.last {
